@@ -6,7 +6,7 @@ usage: tools/recheck_seeds.py [id ...]      (scratch worktrees under /tmp, remov
 import json, os, shutil, subprocess, sys, tempfile
 from concurrent.futures import ThreadPoolExecutor
 
-PROPS = ['C%02d' % i for i in range(1, 21) if i != 6]
+PROPS = ['C%02d' % i for i in range(1, 21)]
 SEEDED = '/verif/seeded'
 
 
